@@ -1094,12 +1094,9 @@ package ackhandler
 // ResetForRetry (whole function, by composition with $1/$2): after a Retry nothing is in flight any more, both packet number
 // spaces start afresh at the next unused packet number, the PTO state and the alarm are cleared, and the RTT is estimated
 // from the Retry only if no Initial had been retransmitted before (ptoCount == 0).
-//@ func (h *sentPacketHandler) qlogMetricsUpdated
-//@   trusted qlog only (reads the congestion state, writes lastMetrics)
-//@   modifies h.lastMetrics.*
 //@ func (h *sentPacketHandler) ResetForRetry
 //@   props C06 C13
-//@   requires h.initialPackets != nil && h.appDataPackets != nil && h.rttStats != nil && 0 <= now && now <= 4611686018427387903
+//@   requires h.initialPackets != nil && h.appDataPackets != nil && h.rttStats != nil && h.congestion != nil && 0 <= now && now <= 4611686018427387903
 //@   ensures [nothing-in-flight] h.bytesInFlight == 0
 //@   ensures [spaces-start-afresh] h.initialPackets != nil && h.appDataPackets != nil && h.initialPackets != old(h.initialPackets) && h.appDataPackets != old(h.appDataPackets) && called("newPacketNumberSpace") == 2
 //@   ensures [pto-and-alarm-cleared] h.ptoCount == 0 && h.alarm.Time == 0
